@@ -129,6 +129,12 @@ def run(ctx):
                 ob5.unknown("address_align term not evaluable: %s (%s)" % (key(t), e))
         else:
             ob5.refute("align-mismatch", "bank machines and interface receive different address_align terms %s" % sorted(al), bms[0].loc)
+    # ---- the controller interface's own width / bank-count terms (what the crossbar reads as controller.*) --------
+    itfv = elab(ctx, COMMON, "LiteDRAMInterface", kwargs={"address_align": Sym("address_align"), "settings": pobj("settings")})
+    itf_terms = {a: itfv.top.attrs.get(a) for a in ("address_width", "nbanks", "nranks")}
+    if not ob1.need(all(x is not None for x in itf_terms.values()), "LiteDRAMInterface lost address_width / nbanks / nranks"):
+        return
+    ob1.instance("controller interface terms", {k_: key(v_) for k_, v_ in itf_terms.items()})
     # ---- valuations -----------------------------------------------------------------------------------------
     vals, total = valuations(ctx.tier, ctx.seed)
     ctx.stat("valuations", len(vals))
@@ -137,16 +143,26 @@ def run(ctx):
     for (bankbits, rowbits, colbits, align, rank, bba, dbytes) in vals:
         if align > colbits - 1:
             continue
-        env0 = {"controller.settings.geom.colbits": colbits, "controller.address_align": align, "controller.settings.bank_byte_alignment": bba,
-                "controller.data_width": dbytes * 8, "controller.address_width": rowbits + colbits + rank - align, "self.bank_bits": bankbits + rank,
-                "self.rank_bits": rank, "self.rca_bits": rowbits + colbits + rank - align,
-                "controller.nbanks": (1 << bankbits) * (1 << rank), "controller.nranks": 1 << rank}
         tag = "bank=%d row=%d col=%d align=%d rank=%d bba=%d bytes=%d" % (bankbits, rowbits, colbits, align, rank, bba, dbytes)
+        try:
+            ienv = {"settings.geom.rowbits": rowbits, "settings.geom.colbits": colbits, "settings.geom.bankbits": bankbits, "settings.phy.nranks": 1 << rank,
+                    "address_align": align}
+            c_aw, c_nb, c_nr = (ieval(itf_terms[a_], ienv) for a_ in ("address_width", "nbanks", "nranks"))
+        except Unresolved as e:
+            ob1.unknown("%s: controller interface term not evaluable: %s" % (tag, e))
+            return
+        if c_nb != (1 << bankbits) * (1 << rank) or c_nr != 1 << rank:
+            ob1.refute("itf-banks:" + tag, "%s: the controller interface announces %d banks / %d ranks, the device has %d / %d" % (tag, c_nb, c_nr, (1 << bankbits) * (1 << rank), 1 << rank), None)
+            continue
+        env0 = {"controller.settings.geom.colbits": colbits, "controller.address_align": align, "controller.settings.bank_byte_alignment": bba,
+                "controller.data_width": dbytes * 8, "controller.address_width": c_aw, "self.bank_bits": bankbits + rank,
+                "self.rank_bits": rank, "self.rca_bits": c_aw,
+                "controller.nbanks": c_nb, "controller.nranks": c_nr}
         try:
             cba = ieval(cba_t, env0)
             cba2 = ieval(cba_rca_t, env0)
             bank_bits = bankbits + rank
-            rca_bits = ieval(rca_bits_t, dict(env0, **{"controller.address_width": rowbits + colbits + rank - align}))
+            rca_bits = ieval(rca_bits_t, env0)
             aw = rowbits + colbits + bankbits + rank - align
             if port_aw_t is not None:
                 aw2 = ieval(port_aw_t, env0)
